@@ -25,6 +25,7 @@ import (
 	"testing"
 	"time"
 
+	"github.com/google/uuid"
 	"github.com/osrg/gobgp/v4/api"
 	"github.com/osrg/gobgp/v4/internal/pkg/table"
 	"github.com/osrg/gobgp/v4/internal/pkg/verifkit"
@@ -124,6 +125,7 @@ func drawH01(t *rapid.T) h01Case {
 type h01Route struct {
 	attrs rsAttrs
 	tag   uint32
+	uuid  []byte // of an API-added route (AddPath response)
 }
 
 type h01Peer struct {
@@ -425,10 +427,15 @@ func (r *h01Run) apply(op h01Op) *verifkit.Failure {
 		if op.V6 {
 			fam = bgp.RF_IPv6_UC
 		}
-		if _, err := n.s.AddPath(apiutil.AddPathRequest{Paths: []*apiutil.Path{{Family: fam, Nlri: nlri, Attrs: a.toBGP(nlri, op.V6, 0)}}}); err != nil {
+		resp, err := n.s.AddPath(apiutil.AddPathRequest{Paths: []*apiutil.Path{{Family: fam, Nlri: nlri, Attrs: a.toBGP(nlri, op.V6, 0)}}})
+		if err != nil {
 			return r.fail("addpath", "%v", err)
 		}
-		r.local[rsViewKey{V6: op.V6, Prefix: nlri.String()}] = h01Route{attrs: a, tag: tag}
+		lr := h01Route{attrs: a, tag: tag}
+		if len(resp) == 1 && resp[0].Error == nil {
+			lr.uuid = append([]byte(nil), resp[0].UUID[:]...)
+		}
+		r.local[rsViewKey{V6: op.V6, Prefix: nlri.String()}] = lr
 		r.logf("API adds %s tag %#x", nlri, tag)
 	case hApiDel:
 		k := rsViewKey{V6: op.V6, Prefix: rsPrefix(op.V6, op.Prefix).String()}
@@ -441,11 +448,21 @@ func (r *h01Run) apply(op h01Op) *verifkit.Failure {
 		if op.V6 {
 			fam = bgp.RF_IPv6_UC
 		}
-		if err := n.s.DeletePath(apiutil.DeletePathRequest{Paths: []*apiutil.Path{{Family: fam, Nlri: nlri, Attrs: lr.attrs.toBGP(nlri, op.V6, 0)}}}); err != nil {
-			return r.fail("deletepath", "%v", err)
+		if len(lr.uuid) == 16 && (op.N+op.Variant)%2 == 0 {
+			// by the identifier AddPath returned
+			var id uuid.UUID
+			copy(id[:], lr.uuid)
+			if err := n.s.DeletePath(apiutil.DeletePathRequest{UUIDs: []uuid.UUID{id}}); err != nil {
+				return r.fail("deletepath", "by UUID: %v", err)
+			}
+			r.logf("API deletes %s by UUID", nlri)
+		} else {
+			if err := n.s.DeletePath(apiutil.DeletePathRequest{Paths: []*apiutil.Path{{Family: fam, Nlri: nlri, Attrs: lr.attrs.toBGP(nlri, op.V6, 0)}}}); err != nil {
+				return r.fail("deletepath", "%v", err)
+			}
+			r.logf("API deletes %s", nlri)
 		}
 		delete(r.local, k)
-		r.logf("API deletes %s", nlri)
 	}
 	n.settle()
 	return nil
@@ -821,5 +838,63 @@ func TestVerifC01(t *testing.T) {
 
 // C02 is decided on the same histories (RIB content, counters) under its own id.
 func TestVerifC02(t *testing.T) {
+	verifkit.RegisterProbe("C02", "stale-message-of-previous-session", h02StaleProbe(t))
 	verifkit.Run(t, "C02", drawH01, runH01(t))
+}
+
+// Probe (white box): "messages ... older than the session's uptime are ignored" (C07's mechanism list, C02's "ended
+// session" clause).  The receive goroutine of a session cannot outlive it in a history (Established waits for it), so
+// the guard in handleFSMMessage is reached here directly: on an established session an UPDATE stamped before the
+// session came up must change neither the Adj-RIB-In nor the Loc-RIB; one stamped now is taken.
+func h02StaleProbe(t *testing.T) func(st *verifkit.Stats) *verifkit.Failure {
+	return func(st *verifkit.Stats) *verifkit.Failure {
+		return simRun(t, func() *verifkit.Failure {
+			n, err := simStart(rsApiGlobal(rsGlobal{}))
+			if err != nil {
+				return verifkit.Failf("start", "%v", err)
+			}
+			p := rsPeer{Addr: "10.0.0.1", ID: "10.0.0.1", Kind: rsEBGP, AS: 65001}
+			if err := rsAddPeers(n, rsGlobal{}, []rsPeer{p}); err != nil {
+				n.stop()
+				return verifkit.Failf("addpeer", "%v", err)
+			}
+			n.settle()
+			n.advance(30 * time.Second) // the session comes up half a minute after the start
+			if _, _, err := n.establish(p.def(), rsOpenSpec(&p)); err != nil {
+				n.stop()
+				return verifkit.Failf("establish", "%v", err)
+			}
+			n.advance(2 * time.Second)
+			var pr *peer
+			_ = n.s.mgmtOperation(func() error { pr = n.s.neighborMap[netip.MustParseAddr(p.Addr)]; return nil }, false)
+			if pr == nil {
+				n.stop()
+				return verifkit.Failf("probe-setup", "peer not found")
+			}
+			count := func() int {
+				c := 0
+				_ = n.s.ListPath(apiutil.ListPathRequest{TableType: api.TableType_TABLE_TYPE_ADJ_IN, Name: p.Addr, Family: bgp.RF_IPv4_UC}, func(bgp.NLRI, []*apiutil.Path) { c++ })
+				_ = n.s.ListPath(apiutil.ListPathRequest{TableType: api.TableType_TABLE_TYPE_GLOBAL, Family: bgp.RF_IPv4_UC}, func(bgp.NLRI, []*apiutil.Path) { c++ })
+				return c
+			}
+			attrs := rsAttrs{ASPath: []rsSeg{{T: 2, AS: []uint32{p.AS}}}, NextHop: p.Addr, MED: -1, LocalPref: -1}
+			for _, back := range []time.Duration{20 * time.Second, 5 * time.Second, 3 * time.Second} {
+				st.SubEval(1)
+				n.s.handleFSMMessage(pr, &fsmMsg{MsgType: fsmMsgBGPMessage, MsgData: rsAnnounce(&p, false, 1, 0, attrs), timestamp: time.Now().Add(-back)})
+				n.settle()
+				if c := count(); c != 0 {
+					n.stop()
+					return verifkit.Failf("stale-message-accepted", "an UPDATE read %v ago, before the current session came up (2 s ago), was installed (%d table entries)", back, c)
+				}
+			}
+			n.s.handleFSMMessage(pr, &fsmMsg{MsgType: fsmMsgBGPMessage, MsgData: rsAnnounce(&p, false, 2, 0, attrs), timestamp: time.Now()})
+			n.settle()
+			if c := count(); c != 2 {
+				n.stop()
+				return verifkit.Failf("fresh-message-ignored", "an UPDATE of the current session was not installed (%d table entries, want 2)", c)
+			}
+			st.Nontrivial()
+			return n.stop()
+		})
+	}
 }
